@@ -201,7 +201,7 @@ def main():
           (dict(kind="passive", shape=(8, 9, 10), field_type="scalar"), 3)]
     if not q:
         t2.append((dict(kind="ns2d", shape=(12, 13), forcing=True, free_stream=False, width=2), 6))
-        t3.append((dict(kind="ns3d", shape=(9, 8, 10), forcing=False, free_stream=True, filter=("convolution", 2), solver="greens_function_convolution", width=1), 5))
+        t3.append((dict(kind="ns3d", shape=(12, 11, 13), forcing=False, free_stream=True, filter=("convolution", 2), solver="greens_function_convolution", width=1), 5))
         t3.append((dict(kind="passive", shape=(8, 9, 10), field_type="vector"), 3))
     for cfg, m in t2:
         for g in group(2, q):
